@@ -93,94 +93,132 @@ theorem C23_spans_ordered (k : Cls) (total : Nat) (cs : List Char) (ts : List Sp
 /-- `(`ⁿ atom `)`ⁿ -/
 def parens (n : Nat) : List SkTok := List.replicate n .lp ++ [.atom] ++ List.replicate n .rp
 
-theorem replicate_succ_append {α : Type} (n : Nat) (a : α) (l : List α) :
-    List.replicate (n + 1) a ++ l = a :: (List.replicate n a ++ l) := by
-  simp [List.replicate_succ]
-
 theorem replicate_cons_comm {α : Type} (n : Nat) (a : α) (l : List α) :
     a :: (List.replicate n a ++ l) = List.replicate n a ++ a :: l := by
   induction n with
   | zero => rfl
   | succ m ih => simp only [List.replicate_succ, List.cons_append]; rw [ih]
 
-/-- helper: with enough fuel and budget, `(`ⁿ atom `)`ⁿ followed by `rest` (not starting with a binary
-    operator) parses and leaves `rest` -/
-theorem skExpr_parens_ok (n : Nat) : ∀ (fuel budget : Nat) (rest : List SkTok),
-    n < fuel → n < budget → (∀ r, rest ≠ .binop :: r) →
-    skExpr fuel budget (List.replicate n .lp ++ [.atom] ++ List.replicate n .rp ++ rest) = .ok rest := by
+/-- helper: with enough fuel and levels, `(`ⁿ atom `)`ⁿ followed by `rest` (not starting with a binary
+    operator) parses and leaves `rest`; a parenthesis costs two levels (expression + primary) -/
+theorem sk_parens_ok (n : Nat) : ∀ (f left : Nat) (rest : List SkTok),
+    2 * n + 2 ≤ left → 5 * n + 5 ≤ f → (∀ r, rest ≠ .binop :: r) →
+    sk f .expr left (List.replicate n .lp ++ [.atom] ++ List.replicate n .rp ++ rest) = .ok rest := by
   induction n with
   | zero =>
-    intro fuel budget rest hf hb hr
-    cases fuel with
-    | zero => omega
-    | succ f =>
-      cases budget with
-      | zero => omega
-      | succ b =>
-        simp only [List.replicate_zero, List.nil_append, List.append_nil, List.cons_append, skExpr]
-        all_goals (split <;> first | rfl | exact absurd rfl (hr _))
+    intro f left rest hl hf hr
+    obtain ⟨f', rfl⟩ : ∃ f', f = f' + 5 := ⟨f - 5, by omega⟩
+    obtain ⟨l', rfl⟩ : ∃ l', left = l' + 2 := ⟨left - 2, by omega⟩
+    simp only [List.replicate_zero, List.nil_append, List.append_nil, List.cons_append, sk]
+    all_goals (split <;> first | rfl | exact absurd rfl (hr _))
   | succ n ih =>
-    intro fuel budget rest hf hb hr
-    cases fuel with
-    | zero => omega
-    | succ f =>
-      cases budget with
-      | zero => omega
-      | succ b =>
-        have hin := ih f b (.rp :: rest) (by omega) (by omega) (by intro r h; cases h)
-        have e : List.replicate (n + 1) SkTok.lp ++ [SkTok.atom] ++ List.replicate (n + 1) SkTok.rp ++ rest
-            = SkTok.lp :: (List.replicate n .lp ++ [.atom] ++ List.replicate n .rp ++ (.rp :: rest)) := by
-          rw [List.replicate_succ (n := n) (a := SkTok.lp), List.replicate_succ' (n := n) (a := SkTok.rp)]
-          simp only [List.cons_append, List.append_assoc, List.nil_append]
-        rw [e]
-        simp only [skExpr, hin]
-        all_goals (split <;> first | rfl | exact absurd rfl (hr _))
+    intro f left rest hl hf hr
+    obtain ⟨f', rfl⟩ : ∃ f', f = f' + 5 := ⟨f - 5, by omega⟩
+    obtain ⟨l', rfl⟩ : ∃ l', left = l' + 2 := ⟨left - 2, by omega⟩
+    have hin := ih f' l' (.rp :: rest) (by omega) (by omega) (by intro r h; cases h)
+    have e : List.replicate (n + 1) SkTok.lp ++ [SkTok.atom] ++ List.replicate (n + 1) SkTok.rp ++ rest
+        = SkTok.lp :: (List.replicate n .lp ++ [.atom] ++ List.replicate n .rp ++ (.rp :: rest)) := by
+      rw [List.replicate_succ (n := n) (a := SkTok.lp), List.replicate_succ' (n := n) (a := SkTok.rp)]
+      simp only [List.cons_append, List.append_assoc, List.nil_append]
+    rw [e]
+    simp only [sk, hin]
+    all_goals (split <;> first | rfl | exact absurd rfl (hr _))
 
-/-- helper: beyond the budget the skeleton answers `tooDeep` -/
-theorem skExpr_parens_deep (budget : Nat) : ∀ (n fuel : Nat) (rest : List SkTok),
-    budget ≤ n → n < fuel →
-    skExpr fuel budget (List.replicate n .lp ++ rest) = .error .tooDeep := by
-  induction budget with
+/-- helper: with fewer than `2n + 2` levels the skeleton answers `tooDeep` -/
+theorem sk_parens_deep (n : Nat) : ∀ (f left : Nat) (t : List SkTok),
+    left < 2 * n + 2 → 5 * n + 5 ≤ f →
+    sk f .expr left (List.replicate n .lp ++ .atom :: t) = .error .tooDeep := by
+  induction n with
   | zero =>
-    intro n fuel rest _ hf
-    cases fuel with
-    | zero => omega
-    | succ f => simp [skExpr]
-  | succ b ih =>
-    intro n fuel rest hb hf
-    cases fuel with
-    | zero => omega
-    | succ f =>
-      cases n with
-      | zero => omega
-      | succ m =>
-        have := ih m f rest (by omega) (by omega)
-        simp only [List.replicate_succ, List.cons_append, skExpr, this]
+    intro f left t hl hf
+    obtain ⟨f', rfl⟩ : ∃ f', f = f' + 5 := ⟨f - 5, by omega⟩
+    match left, hl with
+    | 0, _ => simp [sk]
+    | 1, _ => simp [sk]
+  | succ n ih =>
+    intro f left t hl hf
+    obtain ⟨f', rfl⟩ : ∃ f', f = f' + 5 := ⟨f - 5, by omega⟩
+    match left, hl with
+    | 0, _ => simp [sk]
+    | 1, _ => simp [sk, List.replicate_succ]
+    | l' + 2, hl =>
+      have hin := ih f' l' t (by omega) (by omega)
+      simp only [List.replicate_succ, List.cons_append, sk, hin]
 
-/-- **T3 (depth budget).** For the family `(`ⁿ x `)`ⁿ and every budget `D`: with `n < D` the
-    skeleton accepts, with `n ≥ D` it answers `tooDeep` — it never recurses deeper than `D`, for
-    arbitrarily large `n` (fuel = token count + 1 is enough in both cases). -/
+/-- **T3 (depth budget).** For the family `(`ⁿ x `)`ⁿ and every number `D` of available levels:
+    accepted iff `2n + 2 ≤ D`, otherwise `tooDeep` — the skeleton never goes deeper than `D`, for
+    arbitrarily large `n` (fuel `5n + 5` is enough in both cases). -/
 theorem C23_skeleton_depth_budget (D n : Nat) :
-    skExpr (2 * n + 2) D (parens n) = (if n < D then .ok [] else .error .tooDeep) := by
+    sk (5 * n + 5) .expr D (parens n) = (if 2 * n + 2 ≤ D then .ok [] else .error .tooDeep) := by
   unfold parens
-  by_cases h : n < D
+  by_cases h : 2 * n + 2 ≤ D
   · rw [if_pos h]
-    have := skExpr_parens_ok n (2 * n + 2) D [] (by omega) h (by intro r hr; cases hr)
+    have := sk_parens_ok n (5 * n + 5) D [] h (Nat.le_refl _) (by intro r hr; cases hr)
     simpa using this
   · rw [if_neg h]
-    have := skExpr_parens_deep D n (2 * n + 2) ([.atom] ++ List.replicate n .rp) (by omega) (by omega)
+    have := sk_parens_deep n (5 * n + 5) D (List.replicate n .rp) (by omega) (Nat.le_refl _)
     simpa [List.append_assoc] using this
 
-/-- the budget of the skeleton theorem instantiated with the parser's constant, re-read from
-    `parser/mod.rs` on every run: 99 nested parentheses inside one expression level are accepted,
+/-- the budget instantiated with the parser's constant, re-read from `parser/mod.rs` on every run
+    (one level belongs to the enclosing SELECT): 98 nested parentheses are accepted, 99 and
     100 000 are rejected without deeper recursion -/
 theorem C23_skeleton_at_parser_limit :
-    skExpr (2 * 100000 + 2) VibeProof.Generated.parserMaxNestingDepth (parens 100000) = .error .tooDeep ∧
-    skExpr (2 * 50 + 2) VibeProof.Generated.parserMaxNestingDepth (parens 50) = .ok [] := by
-  constructor
-  · rw [C23_skeleton_depth_budget]
-    simp [VibeProof.Generated.parserMaxNestingDepth]
-  · rw [C23_skeleton_depth_budget]
-    simp [VibeProof.Generated.parserMaxNestingDepth]
+    sk (5 * 98 + 5) .expr (VibeProof.Generated.parserMaxNestingDepth - 1) (parens 98) = .ok [] ∧
+    sk (5 * 99 + 5) .expr (VibeProof.Generated.parserMaxNestingDepth - 1) (parens 99) = .error .tooDeep ∧
+    sk (5 * 100000 + 5) .expr (VibeProof.Generated.parserMaxNestingDepth - 1) (parens 100000) = .error .tooDeep := by
+  refine ⟨?_, ?_, ?_⟩ <;> rw [C23_skeleton_depth_budget] <;> simp [VibeProof.Generated.parserMaxNestingDepth]
+
+/-! ### every recursion of the parser passes the depth guard -/
+
+theorem wellRanked_sound (l : List (String × List Nat)) : ∀ (i : Nat), wellRanked i l = true →
+    ∀ (j : Nat) (e : String × List Nat), l[j]? = some e → ∀ v ∈ e.2, v < i + j := by
+  induction l with
+  | nil => intro i _ j e he; simp at he
+  | cons hd tl ih =>
+    intro i h j e he v hv
+    simp only [wellRanked, Bool.and_eq_true, List.all_eq_true, decide_eq_true_eq] at h
+    cases j with
+    | zero =>
+      simp only [List.getElem?_cons_zero, Option.some.injEq] at he
+      subst he
+      have := h.1 v hv
+      omega
+    | succ j' =>
+      simp only [List.getElem?_cons_succ] at he
+      have := ih (i + 1) h.2 j' e he v hv
+      omega
+
+theorem callPath_decreases (g : List (String × List Nat)) (h : wellRanked 0 g = true) :
+    ∀ u v, CallPath g u v → v < u := by
+  intro u v p
+  induction p with
+  | one c =>
+    obtain ⟨e, he, hv⟩ := c
+    have := wellRanked_sound g 0 h _ e he _ hv
+    omega
+  | step c _ ih =>
+    obtain ⟨e, he, hv⟩ := c
+    have := wellRanked_sound g 0 h _ e he _ hv
+    omega
+
+/-- a call table in which every function only calls earlier entries has no cycle -/
+theorem C23_ranked_graph_acyclic (g : List (String × List Nat)) (h : wellRanked 0 g = true) (u : Nat) :
+    ¬ CallPath g u u := by
+  intro p
+  have := callPath_decreases g h u u p
+  omega
+
+set_option maxRecDepth 100000 in
+/-- **T3b (guard coverage).** In the call table extracted from `parser/**/*.rs` on this run, the
+    functions that do not call `enter_nesting` only call earlier entries … -/
+theorem C23_parser_unguarded_calls_ranked :
+    wellRanked 0 VibeProof.Generated.parserUnguardedCalls = true := by decide +kernel
+
+/-- … hence no chain of calls among unguarded parser functions returns to where it started: every
+    recursion of the parser passes a function that takes a nesting level (and fails beyond
+    `MAX_NESTING_DEPTH`).  A new recursive production without the guard breaks this theorem. -/
+theorem C23_parser_recursion_guarded (u : Nat) :
+    ¬ CallPath VibeProof.Generated.parserUnguardedCalls u u :=
+  C23_ranked_graph_acyclic _ C23_parser_unguarded_calls_ranked u
 
 end VibeProof.C23
